@@ -32,6 +32,11 @@ type Options struct {
 	// NoBlobs / NoSetCode / NoWithdrawals / NoUncles / NoStorage (no genesis storage
 	// for generated contracts) switch features off.
 	NoBlobs, NoSetCode, NoWithdrawals, NoUncles, NoStorage bool
+	// Collapse adds, to about half of the worlds, an engineered contract whose
+	// transaction in the LAST block deletes storage slots / an account such that a
+	// two-child branch node of the storage / account trie collapses (collapse.go).
+	// Drawn after everything else: worlds without the option are unaffected.
+	Collapse bool
 }
 
 func (o *Options) defaults() {
@@ -87,6 +92,8 @@ type World struct {
 	Delegated map[int]common.Address
 	PoorKey   int // index of the sender with a small balance, -1 if none
 	Blocks    []*BlockPlan
+	// Collapse is the engineered branch-collapse arrangement (Options.Collapse), or nil.
+	Collapse *CollapsePlan
 }
 
 // Wei helpers.
@@ -285,6 +292,9 @@ func Draw(rt *rapid.T, opt Options) *World {
 		}
 		w.Blocks = append(w.Blocks, bp)
 	}
+	if opt.Collapse && pickW(rt, "collapse", []int{1, 1}) == 1 {
+		w.drawCollapse(rt, alloc)
+	}
 	return w
 }
 
@@ -315,6 +325,9 @@ func (w *World) Describe() string {
 	}
 	for k, t := range w.Delegated {
 		s += fmt.Sprintf("\n  key[%d] delegated to %s", k, t.Hex())
+	}
+	if w.Collapse != nil {
+		s += "\n  " + w.Collapse.Describe()
 	}
 	for bi, bp := range w.Blocks {
 		s += fmt.Sprintf("\n  block %d coinbase=%s(%s) withdrawals=%d uncle=%v", bi+1, bp.Coinbase.Hex(), bp.CoinbaseClass, len(bp.Withdrawals), bp.Uncle != nil)
